@@ -235,7 +235,8 @@ def rule_fallback(ctx: Ctx):
             if isinstance(s, ast.Assign) and isinstance(s.value, ast.Call) and norm(s.value.func) == "np.arange" and len(s.value.args) == 2 and norm(s.value.args[0]) == "1":
                 ws = norm(s.targets[0])
         in_body = len(ifs) == 1 and any(stores[0] is x for b in ifs[0].body for x in ast.walk(b))
-        okm = in_body and ws is not None and v.startswith(f"{ws}[") and "<" in norm(ifs[0].test)
+        okm = in_body and ws is not None and v.startswith(f"{ws}[") and isinstance(ifs[0].test, ast.Compare) and \
+            isinstance(ifs[0].test.ops[0], (ast.Lt, ast.Gt, ast.LtE, ast.GtE))
     ctx.check(okm, "R-C10-4", m, stores[0] if stores else None,
               "a finite window size (>= 1, taken from np.arange(1, ...)) is recorded only in the branch where windowing is estimated to be advantageous",
               bad_detail="measure_best_window_size assigns the window size outside the 'advantageous' branch, or a size that can be < 1", key="measure")
